@@ -344,7 +344,9 @@ def run(pm, ctx):
                   msg='%s no longer maps exactly null to None' % f.short,
                   key='C04-R3|%s|null' % f.qualname)
     ng = pm.func(VAL + '.Nullable.get_default')
-    ctx.check('C04-R3', returns_text(ng.node) == 'None',
+    ng_rets = [r for r in own_nodes(ng.node) if isinstance(r, ast.Return) and r.value is not None
+               and not (isinstance(r.value, ast.Constant) and r.value.value is None)]
+    ctx.check('C04-R3', not ng_rets,
               'Nullable.get_default is None (an absent nullable field decodes as unset)', ng.loc,
               msg='Nullable.get_default no longer returns None: absent nullable fields decode to '
                   'a value the encoder never omitted', key='C04-R3|%s|default' % ng.qualname)
